@@ -66,3 +66,45 @@ package keeper
 //@   ensures only_committed: calls("OnTimeoutPacket") == n0 + 1 ==> get(S0, ckey) != "" && get(S0, ckey) == channeltypes.CommitPacket(pk)
 //@   ensures noop_pure: err == nil && result.Result == channeltypes.NOOP ==> world(goCtx) == old(world(goCtx)) && calls("OnTimeoutPacket") == n0 && get(S0, ckey) == ""
 //@   ensures not_called_unchanged: err != nil && calls("OnTimeoutPacket") == n0 ==> world(goCtx) == old(world(goCtx))
+
+// ---- privileged and client-scoped operations (C46)
+
+//@ contract (*Keeper).RecoverClient
+//@   modifies world(goCtx)
+//@   ensures authorized: err == nil ==> msg.Signer == effAuthority(goCtx, k.authority)
+//@   ensures unauthorized_unchanged: msg.Signer != effAuthority(goCtx, k.authority) ==> err != nil && world(goCtx) == old(world(goCtx))
+
+//@ contract (*Keeper).IBCSoftwareUpgrade
+//@   modifies world(goCtx)
+//@   ensures authorized: err == nil ==> msg.Signer == effAuthority(goCtx, k.authority)
+//@   ensures unauthorized_unchanged: msg.Signer != effAuthority(goCtx, k.authority) ==> err != nil && world(goCtx) == old(world(goCtx))
+
+//@ contract (*Keeper).UpdateClientParams
+//@   modifies world(goCtx)
+//@   ensures authorized: err == nil ==> msg.Signer == effAuthority(goCtx, k.authority)
+//@   ensures unauthorized_unchanged: msg.Signer != effAuthority(goCtx, k.authority) ==> err != nil && world(goCtx) == old(world(goCtx))
+
+//@ contract (*Keeper).UpdateConnectionParams
+//@   modifies world(goCtx)
+//@   ensures authorized: err == nil ==> msg.Signer == effAuthority(goCtx, k.authority)
+//@   ensures unauthorized_unchanged: msg.Signer != effAuthority(goCtx, k.authority) ==> err != nil && world(goCtx) == old(world(goCtx))
+
+//@ contract (*Keeper).UpdateClientConfig
+//@   let creator = k.ClientKeeper.GetClientCreator(goCtx, msg.ClientId)
+//@   modifies world(goCtx)
+//@   ensures authorized: err == nil ==> msg.Signer == effAuthority(goCtx, k.authority) || str(creator) == bech32dec(msg.Signer)
+//@   ensures unauthorized_unchanged: msg.Signer != effAuthority(goCtx, k.authority) && str(creator) != bech32dec(msg.Signer) ==> err != nil && world(goCtx) == old(world(goCtx))
+
+//@ contract (*Keeper).DeleteClientCreator
+//@   let creator = k.ClientKeeper.GetClientCreator(goCtx, msg.ClientId)
+//@   modifies world(goCtx)
+//@   ensures authorized: err == nil ==> creator != nil && (msg.Signer == effAuthority(goCtx, k.authority) || str(creator) == bech32dec(msg.Signer))
+//@   ensures unauthorized_unchanged: msg.Signer != effAuthority(goCtx, k.authority) && str(creator) != bech32dec(msg.Signer) ==> err != nil && world(goCtx) == old(world(goCtx))
+
+//@ contract (*Keeper).RegisterCounterparty
+//@   let creator = k.ClientKeeper.GetClientCreator(goCtx, msg.ClientId)
+//@   let cpSet = nth(k.ClientV2Keeper.GetClientCounterparty(goCtx, msg.ClientId), 1)
+//@   modifies world(goCtx)
+//@   ensures creator_only: err == nil ==> str(creator) == bech32dec(msg.Signer) && len(creator) > 0
+//@   ensures once: err == nil ==> !cpSet
+//@   ensures unauthorized_unchanged: str(creator) != bech32dec(msg.Signer) || cpSet ==> err != nil && world(goCtx) == old(world(goCtx))
